@@ -1139,6 +1139,10 @@ func init() {
 		c.Rep.Bounds["queries"] = len(qs.List)
 		data := dataset("D1")
 		ws := []core.Window{core.Instant(45000), core.Range(10000, 30000, 11)}
+		if c.Thorough() {
+			ws = append(ws, core.Range(0, 45000, 21), core.Instant(0), core.Range(400000, 30000, 2))
+		}
+		c.Rep.Bounds["windows"] = len(ws)
 		for _, q := range qs.List {
 			for _, w := range ws {
 				c.Rep.Transitions++
